@@ -597,6 +597,7 @@ class UserSecurityModel(
 
         if not (
             isinstance(security.authoritative_engine_id, bytes)
+            and security.authoritative_engine_id
             and isinstance(security.authoritative_engine_boots, int)
             and isinstance(security.authoritative_engine_time, int)
         ):
